@@ -290,8 +290,12 @@ def _as_base_exponent(f):
         if isinstance(exponent, ScalarValue) and not isinstance(exponent._value, complex):
             pair = _as_base_exponent(base)
             if pair is not None:
-                base, inner = pair
-                return base, inner * exponent._value
+                inner_base, inner = pair
+                if inner == 1 or exponent._value == int(exponent._value):
+                    return inner_base, inner * exponent._value
+                # (x**a)**b == x**(a*b) only holds for integer b in
+                # general, e.g. (x**2)**0.5 is abs(x): keep x**a as the base
+                return base, exponent._value
         return None
     elif isinstance(f, Division):
         numerator, denominator = f.ufl_operands
